@@ -537,3 +537,8 @@ Proof.
 Qed.
 
 End GBuild.
+
+Print Assumptions evl_shadow.
+Print Assumptions flush_run.
+Print Assumptions close_tag_g.
+Print Assumptions start_tag_g.
